@@ -66,6 +66,12 @@ def gen(chk):
             add(bytes([O("OP_NOP")] * n + [O("OP_1")]), sv=sv, cmds="s,r,c")
             add(bytes([O("OP_NOP")] * n + [O("OP_1")]), sv=sv, cmds=",".join(["s"] * 100 + ["r"] * 100 + ["c"]))
             add(bytes([O("OP_NOP")] * n + [O("OP_1")]), sv=sv, cmds=",".join(["s"] * 60 + ["r"] * 30 + ["s"] * 10 + ["r"] * 40 + ["c"]))
+        # a limit error reported right after a step that threw: each failing step reports its own error
+        for n in (199, 200, 201):
+            scr = bytes([O("OP_NOP")] * n) + b"\x05\x00\x00\x00\x00\x01" + bytes([O("OP_1ADD"), O("OP_NOP"), O("OP_NOP"), O("OP_1")])
+            add(scr, sv=sv, cmds=",".join(["s"] * (n + 6)))
+        add(b"\x05\x00\x00\x00\x00\x80" + bytes([O("OP_1ADD"), O("OP_VERIFY")]), sv=sv, cmds="s,s,s,s")
+        add(b"\x02\x01\x00" + bytes([O("OP_1ADD")]) + G.push(bytes(521)), sv=sv, fl=G.FLAG("MINIMALDATA"), cmds="s,s,s,s")
         # script size
         for n in (9999, 10000, 10001):
             add(bytes([O("OP_1")] + [O("OP_NOP")] * 0) + G.push(bytes(75)) * ((n - 1) // 76) + bytes([O("OP_1")] * ((n - 1) % 76)), sv=sv, cmds="s")
